@@ -375,7 +375,11 @@ class Classifier:
         has_rank = any(x.op == "mcall" and x.name == "rank" for x in t.walk())
         has_col = any(x.op == "const" and x.name == "global_edge_index" for x in t.walk())
         minus1 = any(x.op == "binop" and x.name == "-" and x.args[1].op == "const" and x.args[1].name == 1 for x in t.walk())
-        return has_group and has_rank and has_col and minus1
+        # groupby('type').cumcount() is the same numbering (0-based position within the type, in table order)
+        cum = any(x.op == "mcall" and x.name == "cumcount" and x.args and x.args[0].op == "mcall" and x.args[0].name == "groupby" and
+                  len(x.args[0].args) >= 2 and x.args[0].args[1].op == "const" and x.args[0].args[1].name == "type" for x in t.walk())
+        plus = any(x.op == "binop" and x.name in ("+", "-") and x.args[1].op == "const" and x.args[1].name not in (0,) for x in t.walk())
+        return (has_group and has_rank and has_col and minus1) or (cum and not plus)
 
     # -- domain (position space) of a data array ---------------------------------------
     def domain(self, t: T, kc: str, depth=0) -> Optional[str]:
